@@ -67,14 +67,15 @@ def vsig(v):
     return (v["prop"], v["oracle"], v["cls"], v.get("where", ""))
 
 
-def replay_path(prop, seed):
+def replay_path(prop, seed, oracle=""):
     d = os.environ.get("VERIF_REPLAY_DIR") or os.path.join(VERIF, "replays")
     os.makedirs(d, exist_ok=True)
-    return os.path.join(d, "%s-%d.json" % (prop, seed))
+    tag = "".join(ch if ch.isalnum() else "_" for ch in oracle)[:40]
+    return os.path.join(d, "%s-%d%s.json" % (prop, seed, "-" + tag if tag else ""))
 
 
 def write_replay(prop, engine, plan, violation, text, minimised, extra=None):
-    path = replay_path(prop, plan["run_seed"])
+    path = replay_path(prop, plan["run_seed"], violation.get("oracle", ""))
     doc = {
         "property": prop,
         "engine": engine,
@@ -97,7 +98,10 @@ def do_replay(prop, path):
     engine = doc["engine"]
     mod = runner.engine_module(engine)
     runner.preload()
-    rec = shrink.run_plan(mod, doc["plan"])
+    if doc.get("chain"):
+        rec = shrink.run_chain(mod, doc["chain"])
+    else:
+        rec = shrink.run_plan(mod, doc["plan"])
     want = doc["violation"]
     got = [v for v in rec["violations"] if v["prop"] == prop and (v["oracle"], v["cls"]) == (want["oracle"], want["cls"])]
     if rec.get("text"):
@@ -199,7 +203,31 @@ def check(prop, tier, runs=None, workers=None, wall=None):
             harness_errors.append({"harness_error": "replay: %s" % e})
             continue
         if not shrink.reproduces(rec, shrink.sig_of(v)):
-            det_fail.append(("violation-did-not-replay", r["seed"]))
+            # not reproducible alone: does it need the runs that preceded it in its chunk
+            # (state the library keeps between calls)?  Replay the chunk prefix as a chain.
+            K = runner.CHUNK[engine]
+            mine = list(range(r["i"] % workers, runs, workers))
+            pos = mine.index(r["i"])
+            prefix = mine[(pos // K) * K : pos + 1]
+            chain = [mod.plan_run(runner.run_seed_for(master, engine, prop, i), prop) for i in prefix]
+            try:
+                crec = shrink.run_chain(mod, chain)
+            except runner.HarnessError as e:
+                harness_errors.append({"harness_error": "chain replay: %s" % e})
+                continue
+            if len(chain) > 1 and shrink.reproduces(crec, shrink.sig_of(v)):
+                chain, used = shrink.shrink_chain(mod, chain, shrink.sig_of(v), budget=40 if tier == "quick" else 120)
+                crec = shrink.run_chain(mod, chain)
+                v2 = [x for x in crec["violations"] if shrink.sig_of(x) == shrink.sig_of(v)] or [v]
+                path = write_replay(prop, engine, crec["plan"], v2[0], crec.get("text"), True, {"chain": chain, "shrink_executions": used, "occurrences_in_batch": len(items), "note": "the violation needs the earlier runs of the chain executed in the same process"})
+                reported.append({"signature": list(sig), "occurrences": len(items), "replay": path, "detail": v2[0].get("detail", ""), "chain_length": len(chain)})
+                say("--- failing case needs a history of %d runs in one process (%d occurrences, %s); last program: ---" % (len(chain), len(items), "/".join(map(str, sig))))
+                say(crec.get("text") or "")
+                say("detail: %s" % v2[0].get("detail", ""))
+                say("VIOLATION property=%s replay=%s" % (prop, path))
+                exit_code = 1
+            else:
+                det_fail.append(("violation-did-not-replay", r["seed"]))
             continue
         budget = 120 if tier == "quick" else 400
         small, used = shrink.shrink(mod, rec["plan"], shrink.sig_of(v), budget=budget)
